@@ -25,6 +25,7 @@ namespace Avoid { int bends(const Point& curr, unsigned int currDir, const Point
 #include <queue>
 #include <set>
 #include <map>
+#include <cstdarg>
 using namespace Avoid;
 
 static std::string H(double d) { return vh::hx(d); }
@@ -440,7 +441,26 @@ static int hopHeading(const Point &a, const Point &b) {      // -1: not axis-par
     return -1;
 }
 
-static void dumpGraphAndCertificate(Router *router, ConnRef *conn, double pen) {
+struct VGOut { std::string text; bool reach; double gopt, popt; VGOut() : reach(false), gopt(0), popt(0) {} };
+
+static void ap(std::string &t, const char *fmt, ...) {
+    char buf[256]; va_list ap_; va_start(ap_, fmt); vsnprintf(buf, sizeof buf, fmt, ap_); va_end(ap_); t += buf;
+}
+
+// the turn-pruning rule of AStarPathPrivate::search exactly as written in the clean source
+// (flags: XL_EDGE=1 XH_EDGE=4 YL_EDGE=16 YH_EDGE=64); h = heading by which `best` was entered
+static bool prunedTurn(const Point &srcPt, const Point &tarPt, const Point &best, unsigned flags, int h, int d) {
+    if ((h == 1 || h == 3) && (d == 0 || d == 2))
+        return best.y != srcPt.y && !(flags & (d == 0 ? 16u : 64u)) && best.x != tarPt.x;
+    if ((h == 0 || h == 2) && (d == 1 || d == 3))
+        return best.x != srcPt.x && !(flags & (d == 3 ? 1u : 4u)) && best.y != tarPt.y;
+    return false;
+}
+
+// Dumps libavoid's orthogonal visibility graph and two certificates: optimum over all routes of the
+// graph (vg*) and optimum over the routes the documented pruning rule permits (vp*).
+static VGOut analyseGraph(Router *router, ConnRef *conn, double pen) {
+    VGOut out;
     std::vector<VertInf *> vs;
     std::map<VertInf *, int> id;
     for (VertInf *v = router->vertices.connsBegin(); v != router->vertices.end(); v = v->lstNext) {
@@ -456,79 +476,108 @@ static void dumpGraphAndCertificate(Router *router, ConnRef *conn, double pen) {
             adj[u].push_back(id[w]);
         }
     int src = id[conn->src()], tar = id[conn->dst()];
-    printf("vgx"); for (int u = 0; u < n; ++u) printf(" %s", H(vs[u]->point.x).c_str()); printf("\n");
-    printf("vgy"); for (int u = 0; u < n; ++u) printf(" %s", H(vs[u]->point.y).c_str()); printf("\n");
-    printf("vga"); for (int u = 0; u < n; ++u) { printf(" %d", (int) adj[u].size()); for (int w : adj[u]) printf(" %d", w); } printf("\n");
-    printf("vgs %d %d\n", src, tar);
-    // backward Dijkstra over (vertex, heading)
+    std::string &t = out.text;
+    t += "vgx"; for (int u = 0; u < n; ++u) ap(t, " %s", H(vs[u]->point.x).c_str()); t += "\n";
+    t += "vgy"; for (int u = 0; u < n; ++u) ap(t, " %s", H(vs[u]->point.y).c_str()); t += "\n";
+    t += "vgf"; for (int u = 0; u < n; ++u) ap(t, " %u", vs[u]->orthogVisPropFlags); t += "\n";
+    t += "vga"; for (int u = 0; u < n; ++u) { ap(t, " %d", (int) adj[u].size()); for (int w : adj[u]) ap(t, " %d", w); } t += "\n";
+    ap(t, "vgs %d %d\n", src, tar);
     const double BIG = 1e9;
-    std::vector<double> pot(n * 4, BIG);
-    typedef std::pair<double, int> QE;
-    std::priority_queue<QE, std::vector<QE>, std::greater<QE>> pq;
-    for (int h = 0; h < 4; ++h) { pot[tar * 4 + h] = 0; pq.push(QE(0, tar * 4 + h)); }
     auto manh = [&](int a, int b) { return std::fabs(vs[a]->point.x - vs[b]->point.x) + std::fabs(vs[a]->point.y - vs[b]->point.y); };
     auto turn = [&](int h, int d) { return d == h ? 0.0 : (d == (h + 2) % 4 ? 2 * pen : pen); };
-    while (!pq.empty()) {
-        QE e = pq.top(); pq.pop();
-        if (e.first > pot[e.second]) continue;
-        int w = e.second / 4, d = e.second % 4;
-        if (w == src) continue;                         // never entered
-        for (int u : adj[w]) {                           // undirected: u is a neighbour of w
-            if (hopHeading(vs[u]->point, vs[w]->point) != d) continue;
-            double l = manh(u, w);
-            for (int h = 0; h < 4; ++h) {
-                if (u == tar) continue;
-                double c = e.first + l + turn(h, d);
-                if (c < pot[u * 4 + h]) { pot[u * 4 + h] = c; pq.push(QE(c, u * 4 + h)); }
+    Point srcPt = vs[src]->point, tarPt = vs[tar]->point;
+    for (int pass = 0; pass < 2; ++pass) {
+        bool prune = pass == 1;
+        const char *px = prune ? "vp" : "vg";
+        auto cut = [&](int u, int h, int d) { return prune && prunedTurn(srcPt, tarPt, vs[u]->point, vs[u]->orthogVisPropFlags, h, d); };
+        std::vector<double> pot(n * 4, BIG);
+        typedef std::pair<double, int> QE;
+        std::priority_queue<QE, std::vector<QE>, std::greater<QE>> pq;
+        for (int h = 0; h < 4; ++h) { pot[tar * 4 + h] = 0; pq.push(QE(0, tar * 4 + h)); }
+        while (!pq.empty()) {
+            QE e = pq.top(); pq.pop();
+            if (e.first > pot[e.second]) continue;
+            int w = e.second / 4, d = e.second % 4;
+            if (w == src) continue;                      // the source is never re-entered
+            for (int u : adj[w]) {
+                if (u == tar || hopHeading(vs[u]->point, vs[w]->point) != d) continue;
+                double l = manh(u, w);
+                for (int h = 0; h < 4; ++h) {
+                    if (cut(u, h, d)) continue;
+                    double c = e.first + l + turn(h, d);
+                    if (c < pot[u * 4 + h]) { pot[u * 4 + h] = c; pq.push(QE(c, u * 4 + h)); }
+                }
             }
         }
-    }
-    double opt = BIG; int bw = -1, bd = -1;
-    for (int w : adj[src]) {
-        if (w == src) continue;
-        int d = hopHeading(vs[src]->point, vs[w]->point);
-        double c = manh(src, w) + pot[w * 4 + d];
-        if (c < opt) { opt = c; bw = w; bd = d; }
-    }
-    bool reach = opt < BIG / 2;
-    printf("vgreachable %d\n", reach ? 1 : 0);
-    if (!reach) return;
-    printf("vgopt %s\n", H(opt).c_str());
-    printf("vgpot"); for (size_t i = 0; i < pot.size(); ++i) printf(" %s", H(pot[i]).c_str()); printf("\n");
-    printf("vgwit %d", bw);
-    int u = bw, h = bd, guard = 0;
-    while (u != tar && guard++ < 100000) {
-        int nw = -1, nd = -1;
-        for (int w : adj[u]) {
+        double opt = BIG; int bw = -1, bd = -1;
+        for (int w : adj[src]) {
             if (w == src) continue;
-            int d = hopHeading(vs[u]->point, vs[w]->point);
-            if (manh(u, w) + turn(h, d) + pot[w * 4 + d] == pot[u * 4 + h]) { nw = w; nd = d; break; }
+            int d = hopHeading(vs[src]->point, vs[w]->point);
+            double c = manh(src, w) + pot[w * 4 + d];
+            if (c < opt) { opt = c; bw = w; bd = d; }
         }
-        if (nw < 0) break;
-        u = nw; h = nd; printf(" %d", u);
+        bool reach = opt < BIG / 2;
+        ap(t, "%sreachable %d\n", px, reach ? 1 : 0);
+        if (pass == 0) { out.reach = reach; out.gopt = opt; } else out.popt = opt;
+        if (!reach) continue;
+        ap(t, "%sopt %s\n", px, H(opt).c_str());
+        t += px; t += "pot"; for (size_t i = 0; i < pot.size(); ++i) ap(t, " %s", H(pot[i]).c_str()); t += "\n";
+        ap(t, "%swit %d", px, bw);
+        int u = bw, h = bd, guard = 0;
+        while (u != tar && guard++ < 100000) {
+            int nw = -1, nd = -1;
+            for (int w : adj[u]) {
+                if (w == src) continue;
+                int d = hopHeading(vs[u]->point, vs[w]->point);
+                if (cut(u, h, d)) continue;
+                if (manh(u, w) + turn(h, d) + pot[w * 4 + d] == pot[u * 4 + h]) { nw = w; nd = d; break; }
+            }
+            if (nw < 0) break;
+            u = nw; h = nd; ap(t, " %d", u);
+        }
+        t += "\n";
     }
-    printf("\n");
+    return out;
 }
 
-// direction-restricted scene: the oracle is the optimum over libavoid's own visibility graph
-static void runSceneVG(long k, const char *tag, const Scene &s) {
-    vh::beginCase(k, tag);
-    printf("pen %s\nbuf %s\n", H(s.pen).c_str(), H(s.buf).c_str());
-    for (const R4 &r : s.rects) printf("rect %s %s %s %s\n", H(r.x0).c_str(), H(r.y0).c_str(), H(r.x1).c_str(), H(r.y1).c_str());
-    printf("src %s %s %u\ndst %s %s %u\n", H(s.sx).c_str(), H(s.sy).c_str(), s.smask, H(s.tx).c_str(), H(s.ty).c_str(), s.tmask);
-    fflush(stdout);
+static Router *buildRouter(const Scene &s, ConnRef *&conn) {
     Router *router = new Router(OrthogonalRouting);
     router->setRoutingParameter(segmentPenalty, s.pen);
     router->setRoutingParameter(shapeBufferDistance, s.buf);
     router->setRoutingParameter(idealNudgingDistance, 1.0);
     for (const R4 &r : s.rects) { Rectangle poly(Point(r.x0, r.y0), Point(r.x1, r.y1)); new ShapeRef(router, poly); }
-    ConnRef *conn = new ConnRef(router, ConnEnd(Point(s.sx, s.sy), s.smask), ConnEnd(Point(s.tx, s.ty), s.tmask));
+    conn = new ConnRef(router, ConnEnd(Point(s.sx, s.sy), s.smask), ConnEnd(Point(s.tx, s.ty), s.tmask));
     conn->setRoutingType(ConnType_Orthogonal);
+    return router;
+}
+
+// Direction-restricted scene: judged against libavoid's own visibility graph.
+// If `lossyTag` is given, the generator class (tag) is decided by a pre-pass on a separate router
+// instance (same scene, same graph) BEFORE the case is opened -- it is a property of the scene alone:
+//   lossyTag   the documented pruning rule discards every optimal route of the graph (optimum under
+//              pruning > optimum), or the endpoints share a row/column;
+//   strictTag  everything else.
+static void runSceneVG(long k, const char *strictTag, const char *lossyTag, const Scene &s) {
+    const char *tag = strictTag;
+    if (lossyTag) {
+        ConnRef *c0 = nullptr; Router *r0 = buildRouter(s, c0);
+        r0->processTransaction();
+        VGOut pre = analyseGraph(r0, c0, s.pen);
+        delete r0;
+        if (s.sx == s.tx || s.sy == s.ty || !pre.reach || pre.popt > pre.gopt) tag = lossyTag;
+    }
+    vh::beginCase(k, tag);
+    printf("pen %s\nbuf %s\n", H(s.pen).c_str(), H(s.buf).c_str());
+    for (const R4 &r : s.rects) printf("rect %s %s %s %s\n", H(r.x0).c_str(), H(r.y0).c_str(), H(r.x1).c_str(), H(r.y1).c_str());
+    printf("src %s %s %u\ndst %s %s %u\n", H(s.sx).c_str(), H(s.sy).c_str(), s.smask, H(s.tx).c_str(), H(s.ty).c_str(), s.tmask);
+    fflush(stdout);
+    ConnRef *conn = nullptr; Router *router = buildRouter(s, conn);
     router->processTransaction();
     printPoly("route", conn->route());
     printPoly("display", conn->displayRoute());
     fflush(stdout);
-    dumpGraphAndCertificate(router, conn, s.pen);
+    VGOut o = analyseGraph(router, conn, s.pen);
+    fputs(o.text.c_str(), stdout);
     delete router;
     vh::endCase();
 }
@@ -559,29 +608,32 @@ int main(int argc, char **argv) {
     // Direction-restricted endpoints.  The geometric optimum is not attained there (a first leg may be
     // arbitrarily short), so these scenes are judged against the optimum of libavoid's OWN visibility
     // graph (dumped after routing; certificate re-checked in Lean).
-    //   scene-dirs-src : only the source restricted, target ConnDirAll (strict; includes the leave-away shape)
-    //   scene-dirs-dst : target restricted (known finding: turn pruning); emitted under the legacy tag
-    //                    scene-dirs unless --mode dirs2
+    //   scene-dirs-src       only the source restricted, target ConnDirAll (incl. the leave-away shape),
+    //                        and the documented turn-pruning rule keeps an optimal route: STRICT
+    //   scene-dirs-src-lossy same, but the pruning rule provably discards every optimal route (rare)
+    //   scene-dirs-dst       target restricted, source anything (known finding: search not optimal)
+    // Until known_findings.json names the two new non-strict tags (--mode dirs2) they are emitted under
+    // the legacy tag scene-dirs.
+    bool newTags = a.mode == "dirs2";
+    const char *srcLossyTag = newTags ? "scene-dirs-src-lossy" : "scene-dirs";
+    const char *dstTag = newTags ? "scene-dirs-dst" : "scene-dirs";
     long ns = (thorough ? 3000 : 600) * a.scale;
     for (long c = 0; c < ns; ++c, ++k) {
         if (!a.want(k)) continue;
         vh::Rng r = vh::caseRng(a.seed, k);
-        if (r.coin(1, 3)) { Scene s = genLeaveAway(r); if (s.smask != 15) { runSceneVG(k, "scene-dirs-src", s); continue; } }
+        if (r.coin(1, 3)) { Scene s = genLeaveAway(r); if (s.smask != 15) { runSceneVG(k, "scene-dirs-src", srcLossyTag, s); continue; } }
         int cls = (int) r.range(0, 4);
         Scene s = genScene(r, cls, maxRects, 1);
         if (s.smask == 15) s = genLeaveAway(r);          // outside rule lifted the restriction: use the shape class
-        runSceneVG(k, "scene-dirs-src", s);
+        runSceneVG(k, "scene-dirs-src", srcLossyTag, s);
     }
-    if (a.mode == "dirs" || a.mode == "dirs2") {
-        const char *dtag = a.mode == "dirs2" ? "scene-dirs-dst" : "scene-dirs";
-        long nd = (thorough ? 3000 : 500) * a.scale;
-        for (long c = 0; c < nd; ++c, ++k) {
-            if (!a.want(k)) continue;
-            vh::Rng r = vh::caseRng(a.seed, k);
-            int cls = (int) r.range(0, 4);
-            Scene s = genScene(r, cls, maxRects, 2);
-            runSceneVG(k, dtag, s);
-        }
+    long nd = (thorough ? 3000 : 500) * a.scale;
+    for (long c = 0; c < nd; ++c, ++k) {
+        if (!a.want(k)) continue;
+        vh::Rng r = vh::caseRng(a.seed, k);
+        int cls = (int) r.range(0, 4);
+        Scene s = genScene(r, cls, maxRects, 2);
+        runSceneVG(k, dstTag, nullptr, s);
     }
     return 0;
 }
